@@ -98,6 +98,12 @@ theorem lowerAt_split (i d : Nat) (a : AL) (h : hasLvl i a = true) :
       refine ⟨[], l, r, ?_, hl, hr'⟩
       simp [lowerAt, hl, lowerAt_none i x r hr']
 
+theorem lowerAt_split_mem (i d : Nat) (a : AL) (h : hasLvl i a = true) : ∃ l, (lowerAt i d a, l) ∈ a ∧ i ≤ l := by
+  obtain ⟨P, l, A2, h1, h2, _⟩ := lowerAt_split i d a h
+  have : (lowerAt i d a, l) ∈ P ++ (lowerAt i d a, l) :: A2 := by simp
+  rw [← h1] at this
+  exact ⟨l, this, h2⟩
+
 theorem lowerAt_zero (d : Nat) (a : AL) : lowerAt 0 d a = lastId d a := by
   induction a generalizing d with
   | nil => rfl
@@ -618,5 +624,289 @@ theorem setP0_eq (s : LDb) (x v : Nat) (hh : ∀ nd ∈ s.heap, nd.id ≠ 0) :
     intro nd hnd
     simp [hh nd hnd]
   · simp only [setP0, if_neg hx, updNode]
+
+/-! ### splitting lists -/
+
+theorem split_cases {α : Type} {A B pre post : List α} {a b : α} (h : A ++ a :: B = pre ++ b :: post) :
+    (∃ mid, A = pre ++ b :: mid ∧ post = mid ++ a :: B) ∨ (pre = A ∧ b = a ∧ post = B) ∨
+    (∃ mid, B = mid ++ b :: post ∧ pre = A ++ a :: mid) := by
+  rcases List.append_eq_append_iff.1 h with ⟨c, h1, h2⟩ | ⟨c, h1, h2⟩
+  · cases c with
+    | nil =>
+      simp only [List.nil_append, List.cons.injEq] at h2
+      right; left
+      exact ⟨by simpa using h1, h2.1.symm, h2.2.symm⟩
+    | cons c0 c' =>
+      simp only [List.cons_append, List.cons.injEq] at h2
+      right; right
+      exact ⟨c', h2.2, by rw [h1, h2.1]⟩
+  · cases c with
+    | nil =>
+      simp only [List.nil_append, List.cons.injEq] at h2
+      right; left
+      exact ⟨by simpa using h1.symm, h2.1, h2.2⟩
+    | cons c0 c' =>
+      simp only [List.cons_append, List.cons.injEq] at h2
+      left
+      exact ⟨c', by rw [h1, h2.1], h2.2⟩
+
+theorem split_cases2 {α : Type} {A B pre post : List α} {b : α} (h : A ++ B = pre ++ b :: post) :
+    (∃ mid, A = pre ++ b :: mid ∧ post = mid ++ B) ∨ (∃ mid, B = mid ++ b :: post ∧ pre = A ++ mid) := by
+  rcases List.append_eq_append_iff.1 h with ⟨c, h1, h2⟩ | ⟨c, h1, h2⟩
+  · right; exact ⟨c, h2, h1⟩
+  · cases c with
+    | nil =>
+      right
+      exact ⟨[], by simpa using h2.symm, by simpa using h1.symm⟩
+    | cons c0 c' =>
+      simp only [List.cons_append, List.cons.injEq] at h2
+      left
+      exact ⟨c', by rw [h1, h2.1], h2.2⟩
+
+theorem ids_append (a b : AL) : ids (a ++ b) = ids a ++ ids b := by simp [ids]
+
+theorem ids_cons (x l : Nat) (a : AL) : ids ((x, l) :: a) = x :: ids a := rfl
+
+theorem mem_ids {x : Nat} {a : AL} : x ∈ ids a ↔ ∃ l, (x, l) ∈ a := by
+  simp [ids]
+
+theorem lower_eq_iff {A pre mid : AL} {x lx : Nat} (d j : Nat) (hA : A = pre ++ (x, lx) :: mid) (hj : j ≤ lx)
+    (hx : x ∉ ids mid) : lowerAt j d A = x ↔ hasLvl j mid = false := by
+  have e : lowerAt j d A = lowerAt j x mid := by
+    rw [hA, lowerAt_append]; simp only [lowerAt, if_pos hj]
+  rw [e]
+  constructor
+  · intro h
+    cases hc : hasLvl j mid with
+    | false => rfl
+    | true =>
+      obtain ⟨l, h1, _⟩ := lowerAt_split_mem j x mid hc
+      exfalso; apply hx
+      rw [h] at h1
+      exact mem_ids.2 ⟨l, h1⟩
+  · intro h; exact lowerAt_none j x mid h
+
+theorem lower_ne {A : AL} {x d : Nat} (j : Nat) (hx : x ∉ ids A) (hd : x ≠ d) : lowerAt j d A ≠ x := by
+  rcases lowerAt_mem j d A with h | h
+  · rw [h]; exact Ne.symm hd
+  · intro e; rw [e] at h; exact hx h
+
+theorem Rep.heap_ne_blk {s : LDb} {L : AL} (h : Rep s L) : ∀ nd ∈ s.heap, nd.id ≠ s.blk := by
+  intro nd hnd
+  obtain ⟨p, hp, he⟩ := List.mem_map.1 (h.heap_ids nd hnd)
+  rw [← he]; exact (h.idok p hp).2.1
+
+theorem Rep.heap_ne_zero {s : LDb} {L : AL} (h : Rep s L) : ∀ nd ∈ s.heap, nd.id ≠ 0 := by
+  intro nd hnd
+  obtain ⟨p, hp, he⟩ := List.mem_map.1 (h.heap_ids nd hnd)
+  rw [← he]; exact (h.idok p hp).1
+
+theorem Rep.lower_blk_iff {s : LDb} {L A : AL} (h : Rep s L) (hA : ∀ p ∈ A, p ∈ L) (j : Nat) :
+    lowerAt j s.blk A = s.blk ↔ hasLvl j A = false := by
+  constructor
+  · intro he
+    cases hc : hasLvl j A with
+    | false => rfl
+    | true =>
+      obtain ⟨l, this, _⟩ := lowerAt_split_mem j s.blk A hc
+      exact absurd he (h.idok _ (hA _ this)).2.1
+  · intro hc; exact lowerAt_none j _ A hc
+
+/-! ### insertion -/
+
+theorem Rep.insert_eq {s : LDb} {A B : AL} (h : Rep s (A ++ B)) (before : Nat → Bool)
+    (hA : ∀ p ∈ A, before p.1 = true) (hB : ∀ p ∈ B, before p.1 = false) (nid l : Nat) :
+    insert s before nid l =
+      { blk := s.blk,
+        hn := fixN ((List.range (l + 1)).map (lowerAt · s.blk A)) (fun _ => nid) s.blk (l + 1) s.hn,
+        tail := if nextAt 0 B = 0 then nid else s.tail,
+        lcnt := bump s.lcnt l,
+        heap := canonNode s.blk A nid l B :: s.heap.map fun nd =>
+          { (if nd.id = nextAt 0 B then { nd with p0 := nid } else nd : LNode) with
+            n := fixN ((List.range (l + 1)).map (lowerAt · s.blk A)) (fun _ => nid) nd.id (l + 1) nd.n } } := by
+  simp only [insert, h.findBounds_eq rfl before hA hB l, getD_map_range', if_pos (Nat.succ_pos l)]
+  rw [setP0_eq s _ _ h.heap_ne_zero, fixLevels_eq]
+  · simp only [List.map_map, canonNode, lowerAt_zero]
+    congr 2
+    apply List.map_congr_left
+    intro nd _
+    simp only [Function.comp]
+    split <;> rfl
+  · intro nd hnd
+    simp only [List.mem_map] at hnd
+    obtain ⟨nd0, h0, rfl⟩ := hnd
+    have := h.heap_ne_blk nd0 h0
+    split <;> exact this
+
+theorem node?_cons_map (s : LDb) (nb : LNode) (g : LNode → LNode) (hg : ∀ nd, (g nd).id = nd.id) (x : Nat)
+    (hx : nb.id ≠ x) (blk : Nat) (hn : List Nat) (tail : Nat) (lcnt : List Nat) :
+    node? ⟨blk, hn, tail, lcnt, nb :: s.heap.map g⟩ x = (node? s x).map g := by
+  simp only [node?, List.find?_cons, decide_eq_false hx, List.find?_map]
+  congr 2
+  funext nd
+  simp [hg]
+
+theorem nextAt_zero_cons (x l : Nat) (r : AL) : nextAt 0 ((x, l) :: r) = x := by simp [nextAt]
+
+theorem nodup_mid {pre mid : AL} {x lx : Nat} (h : (ids (pre ++ (x, lx) :: mid)).Nodup) : x ∉ ids mid ∧ x ∉ ids pre := by
+  rw [ids_append, ids_cons, List.nodup_append] at h
+  obtain ⟨_, h2, h3⟩ := h
+  exact ⟨(List.nodup_cons.1 h2).1, fun hx => h3 x hx x (by simp) rfl⟩
+
+theorem ins_link (j l nid v x : Nat) (mid B : AL) (hiff : j < l + 1 → (v = x ↔ hasLvl j mid = false)) :
+    (if j < l + 1 ∧ (if j < l + 1 then v else 0) = x then nid else nextAt j (mid ++ B)) =
+      nextAt j (mid ++ (nid, l) :: B) := by
+  rw [nextAt_append, nextAt_append]
+  by_cases hjl : j < l + 1
+  · simp only [hjl, if_true, true_and]
+    cases hc : hasLvl j mid with
+    | false =>
+      rw [if_pos ((hiff hjl).2 hc)]
+      simp only [Bool.false_eq_true, if_false, nextAt, if_pos (show j ≤ l by omega)]
+    | true =>
+      have : ¬ v = x := by intro e; rw [(hiff hjl).1 e] at hc; exact absurd hc (by simp)
+      rw [if_neg this]
+      simp only [if_true]
+  · rw [if_neg (fun hh => hjl hh.1)]
+    simp only [nextAt, if_neg (show ¬ j ≤ l by omega)]
+
+theorem Rep.insert {s : LDb} {A B : AL} (h : Rep s (A ++ B)) (before : Nat → Bool)
+    (hA : ∀ p ∈ A, before p.1 = true) (hB : ∀ p ∈ B, before p.1 = false) (nid l : Nat)
+    (hn0 : nid ≠ 0) (hnb : nid ≠ s.blk) (hfresh : nid ∉ ids (A ++ B)) (hl : l < SLEVELS) :
+    Rep (insert s before nid l) (A ++ (nid, l) :: B) := by
+  rw [h.insert_eq before hA hB nid l]
+  have hnd := h.nodup
+  rw [ids_append, List.nodup_append] at hnd
+  obtain ⟨hndA, hndB, hdisj⟩ := hnd
+  have hfA : nid ∉ ids A := fun hx => hfresh (by rw [ids_append]; simp [hx])
+  have hfB : nid ∉ ids B := fun hx => hfresh (by rw [ids_append]; simp [hx])
+  have hAL : ∀ p ∈ A, p ∈ A ++ B := fun p hp => by simp [hp]
+  have hBL : ∀ p ∈ B, p ∈ A ++ B := fun p hp => by simp [hp]
+  have hgid : ∀ nd : LNode, ({ (if nd.id = nextAt 0 B then { nd with p0 := nid } else nd : LNode) with
+      n := fixN ((List.range (l + 1)).map (lowerAt · s.blk A)) (fun _ => nid) nd.id (l + 1) nd.n } : LNode).id = nd.id := by
+    intro nd; split <;> rfl
+  have hlo : ∀ j, j < l + 1 → ((List.range (l + 1)).map (lowerAt · s.blk A)).getD j 0 = lowerAt j s.blk A := by
+    intro j hj; rw [getD_map_range', if_pos hj]
+  refine ⟨h.blk_ne, ?_, ?_, ?_, ?_, ?_, ?_, ?_, ?_⟩
+  · -- nodup
+    rw [ids_append, ids_cons, List.nodup_append]
+    refine ⟨hndA, List.nodup_cons.2 ⟨hfB, hndB⟩, ?_⟩
+    intro a ha b hb
+    rcases List.mem_cons.1 hb with rfl | hb
+    · intro e; exact hfA (e ▸ ha)
+    · exact hdisj a ha b hb
+  · -- idok
+    intro p hp
+    rcases List.mem_append.1 hp with hp | hp
+    · exact h.idok p (hAL p hp)
+    · rcases List.mem_cons.1 hp with rfl | hp
+      · exact ⟨hn0, hnb, hl⟩
+      · exact h.idok p (hBL p hp)
+  · -- heap_nodup
+    simp only [List.map_cons, List.map_map, canonNode]
+    have e : (s.heap.map ((fun nd : LNode => nd.id) ∘ fun nd => ({ (if nd.id = nextAt 0 B then { nd with p0 := nid } else nd : LNode) with
+        n := fixN ((List.range (l + 1)).map (lowerAt · s.blk A)) (fun _ => nid) nd.id (l + 1) nd.n } : LNode))) = s.heap.map (·.id) := by
+      apply List.map_congr_left; intro nd _; exact hgid nd
+    rw [e]
+    refine List.nodup_cons.2 ⟨?_, h.heap_nodup⟩
+    intro hm
+    obtain ⟨nd, hnd, he⟩ := List.mem_map.1 hm
+    exact hfresh (he ▸ h.heap_ids nd hnd)
+  · -- heap_ids
+    intro nd hnd
+    rcases List.mem_cons.1 hnd with rfl | hnd
+    · rw [ids_append, ids_cons]; simp [canonNode]
+    · obtain ⟨nd0, h0, rfl⟩ := List.mem_map.1 hnd
+      rw [hgid nd0]
+      have := h.heap_ids nd0 h0
+      rw [ids_append] at this ⊢
+      rw [ids_cons]
+      rcases List.mem_append.1 this with h1 | h1
+      · simp [h1]
+      · simp [h1]
+  · -- node
+    intro pre x lx post hs
+    rcases split_cases hs with ⟨mid, hA', hpost⟩ | ⟨hpre, hb, hpost⟩ | ⟨mid, hB', hpre⟩
+    · -- x in A
+      have hsOld : A ++ B = pre ++ (x, lx) :: (mid ++ B) := by rw [hA']; simp
+      have hxA : x ∈ ids A := by rw [hA', ids_append, ids_cons]; simp
+      have hxn : nid ≠ x := fun e => hfA (e ▸ hxA)
+      have hxmid : x ∉ ids mid := (nodup_mid (hA' ▸ hndA)).1
+      have hxu : x ≠ nextAt 0 B := by
+        intro e
+        have hx0 := (h.ne_blk hsOld).1
+        rw [e] at hx0
+        obtain ⟨l', hm, _⟩ := nextAt_mem 0 B ((h.nextAt_ne_zero hBL 0).1 hx0)
+        exact hdisj x hxA (nextAt 0 B) (mem_ids.2 ⟨l', hm⟩) e
+      rw [node?_cons_map s _ _ hgid x hxn, h.node pre x lx (mid ++ B) hsOld]
+      simp only [Option.map_some, canonNode, if_neg hxu, hpost]
+      congr 2
+      apply ext_getD
+      · simp [fixN_length]
+      · intro j hj
+        simp only [fixN_length, List.length_map, List.length_range] at hj
+        simp only [fixN_getD, getD_map_range', List.length_map, List.length_range, hj, if_true, and_true]
+        exact ins_link j l nid _ x mid B (fun _ => lower_eq_iff s.blk j hA' (by omega) hxmid)
+    · -- the new node
+      subst hpre hpost
+      simp only [Prod.mk.injEq] at hb
+      obtain ⟨rfl, rfl⟩ := hb
+      simp [node?, canonNode]
+    · -- x in B
+      have hsOld : A ++ B = (A ++ mid) ++ (x, lx) :: post := by rw [hB']; simp
+      have hxB : x ∈ ids B := by rw [hB', ids_append, ids_cons]; simp
+      have hxA : x ∉ ids A := fun hx => hdisj x hx x hxB rfl
+      have hxn : nid ≠ x := fun e => hfB (e ▸ hxB)
+      have hxb := (h.ne_blk hsOld).2.1
+      rw [node?_cons_map s _ _ hgid x hxn, h.node (A ++ mid) x lx post hsOld]
+      have hnoop : fixN ((List.range (l + 1)).map (lowerAt · s.blk A)) (fun _ => nid) x (l + 1)
+          ((List.range (lx + 1)).map (nextAt · post)) = (List.range (lx + 1)).map (nextAt · post) := by
+        apply fixN_noop
+        intro j hj
+        rw [hlo j hj]
+        exact lower_ne j hxA hxb
+      cases mid with
+      | nil =>
+        have hu : x = nextAt 0 B := by rw [hB']; simp [nextAt]
+        simp only [Option.map_some, canonNode, if_pos hu, hnoop, hpre, List.append_nil, lastId_append, lastId]
+      | cons q mid' =>
+        obtain ⟨y, ly⟩ := q
+        have hu : x ≠ nextAt 0 B := by
+          rw [hB']; simp only [List.cons_append, nextAt_zero_cons]
+          intro e
+          rw [hB', List.cons_append, ids_cons, ids_append, ids_cons] at hndB
+          have := (List.nodup_cons.1 hndB).1
+          apply this; rw [← e]; simp
+        simp only [Option.map_some, canonNode, if_neg hu, hnoop, hpre, lastId_append, lastId]
+  · -- head links
+    apply ext_getD
+    · simp [fixN_length, h.hn]
+    · intro j hj
+      simp only [fixN_length, h.hn, List.length_map, List.length_range] at hj
+      simp only [fixN_getD, h.hn, getD_map_range', List.length_map, List.length_range, hj, if_true, and_true]
+      exact ins_link j l nid _ s.blk A B (fun _ => h.lower_blk_iff hAL j)
+  · -- tail
+    left
+    simp only [lastId_append, lastId]
+    cases B with
+    | nil => simp [nextAt, lastId]
+    | cons q B' =>
+      obtain ⟨y, ly⟩ := q
+      have hy : y ≠ 0 := (h.idok (y, ly) (by simp)).1
+      rw [nextAt_zero_cons, if_neg hy]
+      rcases h.tail with ht | ⟨ht, _⟩
+      · rw [ht, lastId_append]; simp [lastId]
+      · simp at ht
+  · -- counters
+    apply ext_getD
+    · simp [bump, h.lcnt]
+    · intro j hj
+      simp only [bump, List.length_set, h.lcnt, List.length_map, List.length_range] at hj
+      simp only [bump]
+      simp only [getD_set, h.lcnt, getD_map_range', List.length_map, List.length_range, hj, hl, if_true, and_true,
+        cnt_append, cnt_cons]
+      by_cases hjl : j = l
+      · subst hjl; simp only [if_true]; omega
+      · rw [if_neg hjl, if_neg (Ne.symm hjl)]; omega
 
 end IwModel.KvLinks
